@@ -209,6 +209,12 @@ impl GsWorld {
                 let r = guarded(|| self.client().try_transfer_ownership(&new));
                 self.fin(r, unit)
             }
+            "gs.upgrade_migrate" => {
+                let gs = self.gs.clone().unwrap();
+                let r = upgrade_migrate(&env, &gs, t[1]);
+                let _ = self.events();
+                r
+            }
             "gs.owner" => {
                 let r = guarded(|| self.client().try_owner());
                 self.fin(r, |v: &Address| format!(" {}", Addr::from_sdk(v).tok()))
